@@ -68,6 +68,7 @@ def gen_config(rng, tier, flavor="db"):
         "entry": rng.choice(["fit", "direct"]),
         "heated_trace": rng.random() < 0.5,
         "refit": rng.random() < 0.2,
+        "ladder_reversed": rng.random() < 0.3,
     }
     cfg["alpha_beta"] = rng.choice([[1.0, 3.0], [1.0, 3.0], [1.0, 1.0], [2.0, 2.0], [0.5, 0.5]])
     if flavor == "db" and rng.random() < 0.06:
@@ -259,7 +260,8 @@ class AssembleSim:
                     recombination_step_probability=cfg["p_recomb"],
                     partial_dosage_step_probability=cfg["p_partial"],
                     dosage_step_probability=cfg["p_dosage"],
-                    temperatures=tuple(cfg["temperatures"]),
+                    # the ladder may be given in any order (fit sorts it)
+                    temperatures=tuple(reversed(cfg["temperatures"])) if cfg.get("ladder_reversed") else tuple(cfg["temperatures"]),
                     random_seed=cfg.get("random_seed", 7),
                     llk_cache_threshold=threshold,
                 )
